@@ -79,11 +79,16 @@ def check_records(sm, proc, chains_records, info):
                 raise Violation('records:parameters', dict(inf, got=ri.get('parameters'), want=want_params))
             want_inputs = sorted((model.rel_name(t, i['key']), rch.mt[i['target']].key) for i in t.inputs if i['present'])
             got_inputs = ri.get('input_tasks') or {}
-            if not any(sorted((model.rel_name(sh, k), v) for k, v in got_inputs.items()) == want_inputs for sh in sharing):
+            # (name mode: every task of a config is stored under the config's name, which the run info gives as
+            # config.name; the library lists input keys in parameter mode only, and nothing more is asked here)
+            if not sm.hist.get('name_mode') and not any(
+                    sorted((model.rel_name(sh, k), v) for k, v in got_inputs.items()) == want_inputs for sh in sharing):
                 raise Violation('records:input-keys', dict(inf, got=got_inputs, want=want_inputs))
             cfg = ri.get('config') or {}
+            # (parameter mode: `<config>/<task>`; name mode: the config itself)
             if cfg.get('namespace') not in [sh.ns for sh in sharing] or not any(
-                    str(cfg.get('name', '')).startswith(sh.inst.config_name + '/') for sh in sharing):
+                    str(cfg.get('name', '')) == sh.inst.config_name
+                    or str(cfg.get('name', '')).startswith(sh.inst.config_name + '/') for sh in sharing):
                 raise Violation('records:config', dict(inf, got=cfg, want=[(sh.inst.config_name, sh.ns) for sh in sharing]))
             want_log = records.records(seq)
             if t.kind in ('generator', 'lazy'):
@@ -173,7 +178,8 @@ def eval_case(hist, rec):
 def strategy():
     return histgen.histories(KINDS, max_ops=22, n_variants=(1, 3),
                              gen_kw=dict(max_modules=2, max_tasks=4, kinds=['dict', 'list', 'str', 'numpy', 'generator',
-                                                                            'lazy', 'dir', 'frame']))
+                                                                            'lazy', 'dir', 'frame']),
+                             name_mode=4)
 
 
 def plan(tier):
